@@ -5,6 +5,7 @@ C02 - every map-conformant document is accepted with zero errors.
 (b) E3: every conformant document within d deviations of the minimal one, through the whole pipeline.
 """
 import itertools
+import json
 from mc import core, gen, grammar as G
 
 ID = 'C02'
@@ -90,14 +91,44 @@ def evaluate(case):
     if case.get('part') == 'a':
         from mc import c02a
         return c02a.evaluate(case)
+    if not case.get('_inproc'):
+        # in a brand-new interpreter: the prelude must be the first thing that process validates (this process has
+        # loaded maps already, and a cache that ignores the options would hide the difference)
+        import subprocess, sys as _sys
+        code = ('import sys, json; sys.path.insert(0, %r); from mc import core; core.bind_repo(); from mc import c02; '
+                'print("RESULT" + json.dumps(c02.evaluate(dict(json.load(sys.stdin), _inproc=True))))' % core.VERIF)
+        p_ = subprocess.run([_sys.executable, '-B', '-c', code], input=json.dumps(case, default=str), capture_output=True, text=True, timeout=600)
+        for line in p_.stdout.splitlines():
+            if line.startswith('RESULT'):
+                return [tuple(x) for x in json.loads(line[6:])]
+        raise RuntimeError('evaluation subprocess failed: %s' % p_.stderr[-500:])
     entry = tuple(case['entry'])
+    prelude(entry)
     st, v, d = judge_doc(entry, plan_from_json(case['plan']))
     return v if st == 'bad' else []
+
+
+_PRELUDE = set()
+
+
+def prelude(entry):
+    """once per worker process and map: the minimal document is validated under the OTHER character set first.  What a
+    conformant document gets must not depend on what the process validated before, under whatever options"""
+    if entry[4] in _PRELUDE:
+        return
+    _PRELUDE.add(entry[4])
+    from mc import pipe
+    try:
+        d = gen.build(entry, {})
+        pipe.run(d.text(eol='\n'), sinks=(), charset='B', want_nodes=False)
+    except Exception:
+        pass
 
 
 def work(shard):
     entry, plans = shard
     P = core.Part()
+    prelude(entry)
     for name, plan in plans:
         st, v, d = judge_doc(entry, plan)
         P.n += 1
@@ -153,5 +184,5 @@ def run(R):
     R.bounds['a'] = sa
     R.assumptions = ['documents that the independent first-match parser assigns to other nodes than the generating ones (map ambiguity) are skipped and counted',
                      'nodes for which no admissible value can be synthesised are counted as ungeneratable, never reported',
-                     'element values: two per element (min/max length, first/last code)']
+                     'element values: two per element (min/max length, first/last code), plus signed / punctuation / lower-case shapes', 'every worker validates the minimal document of the map under charset B before it judges documents under the default options (the verdict on a conformant document must not depend on earlier calls)']
     return R.finish(LEVEL, '(b) conformant documents by plan; (a) walker transitions; distinct = (map, deviation kind) / canonical walker states', exhaustive=True)
